@@ -46,7 +46,7 @@ BigCtx(c) ==
 Unmodelled(c) ==
     ~BigCtx(c) /\
     CASE c.fam = "real" -> FALSE
-      [] c.fam = "efloat" -> c.nbits - c.es > 12 \/ c.es > 5
+      [] c.fam = "efloat" -> c.nbits - c.es > 12 \/ c.es > 4
       [] c.fam \in {"mpfloat", "mpsfloat", "mpbfloat"} -> c.p > 12 \/ (c.fam # "mpfloat" /\ c.emin < -12)
       [] c.fam \in {"mpfixed", "mpbfixed"} -> c.nmin < -12 \/ c.nmin > 12
       [] c.fam \in {"fixed", "smfixed"} -> c.nbits > 12 \/ c.scale < -12 \/ c.scale > 12
